@@ -7,7 +7,7 @@ package state
 //@ # swap state and report to the conservation ledger; results are non-nil amounts
 //@ func iface _.PairSellWithOrders
 //@   requires arg2 != nil
-//@   ensures result0 != nil && result1 != nil && result0.val == old(arg2.val) && result1.val >= 0
+//@   ensures result0 == arg2 && result1 != nil && fresh(result1) && result0.val == old(arg2.val) && result1.val >= 0
 //@   ensures forall i int :: 0 <= i && i < len(result4) ==> result4[i] != nil && result4[i].ValueBigInt != nil && result4[i].ValueBigInt.val >= 0
 //@   ensures onlycoin0: forall x int :: select(bal, x) == store(select(old(bal), x), arg0, select(select(bal, x), arg0))
 //@   ensures grows: forall x *accounts.Accounts, a types.Address :: bal(x, arg0, a) >= old(bal(x, arg0, a))
